@@ -246,6 +246,9 @@ let () =
              Printf.printf "%s %s %s\n" id (hex_of_str (b64_encode s))
                (match b64_decode s with None -> "ERR" | Some d -> "OK:" ^ hex_of_str d)
            | "HOST" -> Printf.printf "%s HOST %s\n" id (hex_of_str (x_to_hostname (next_str ())))
+           | "FB" -> let u = next_str () in let p = next_str () in let r = next_str () in let a = next_str () in
+             Printf.printf "%s BYTES %s\n" id
+               (hex_of_str (x_entry_bytes { c_user = u; c_pass = p; c_refresh = r; c_access = a }))
            | "J" -> let s = next_str () in
              Printf.printf "%s JQ %s JU %s\n" id (hex_of_str (json_quote s))
                (match json_unquote s with None -> "ERR" | Some t -> "OK:" ^ hex_of_str t)
